@@ -832,49 +832,46 @@ Theorem c16_index_caught_read_exact :
 Proof. exact ix_le_as_eof. Qed.
 Print Assumptions c16_index_caught_read_exact.
 
-(* GZI.  The sync reader program against C17's whole-buffer parser: it returns an index exactly
-   when read_gzi accepts (nothing left unread), the same one, and never panics *)
+(* GZI.  The reader program (one for both sides since /repo f641783) against C17's whole-buffer
+   parser: it returns an index exactly when read_gzi accepts (nothing left unread), the same one *)
 Theorem c16_gzi_program_is_read_gzi :
   forall d,
     match run_pure (p_gzi false) d with
     | POk (GIndex l) r => NV.Index.Layout.read_gzi d = Some l /\ r = []
-    | POk GPanic _ => False
     | PErr _ => NV.Index.Layout.read_gzi d = None
     end.
 Proof. exact gzi_link. Qed.
 Print Assumptions c16_gzi_program_is_read_gzi.
 
-(* unless the count field makes Vec::with_capacity overflow (count >= 2^59), the async GZI reader
-   under every poll script returns what the sync reader returns under every delivery script: the
-   same index or the same error kind *)
+(* for EVERY byte string (every count field), the async GZI reader under every poll script
+   returns what the sync reader returns under every delivery script: the same index or the same
+   error kind *)
 Theorem c16_async_gzi_reader_equals_sync :
   forall polls req req' script d,
-    ~ gzi_count_overflows d ->
     fst (run_rd aread req a_fuel (p_gzi true) (mkASource d polls))
     = fst (run_rd src_read req' src_fuel (p_gzi false) (mkSource d script)).
 Proof. exact async_gzi_reader_equals_sync. Qed.
 Print Assumptions c16_async_gzi_reader_equals_sync.
 
-(* ... and then it returns an index exactly when C17's read_gzi does, the same one *)
+(* ... and it returns an index exactly when C17's read_gzi does, the same one *)
 Theorem c16_async_gzi_reader_is_read_gzi :
   forall polls req d l,
-    ~ gzi_count_overflows d ->
     (fst (run_rd aread req a_fuel (p_gzi true) (mkASource d polls)) = RVal (GIndex l)
      <-> NV.Index.Layout.read_gzi d = Some l).
 Proof. exact async_gzi_reader_link. Qed.
 Print Assumptions c16_async_gzi_reader_is_read_gzi.
 
-(* the full statement is false: 8 bytes holding the count 2^59 make the async reader panic under
-   every poll script while the sync reader reports UnexpectedEof
-   (finding async-gzi-reader-count-capacity-overflow-panic) *)
-Theorem c16_async_gzi_reader_equals_sync_refuted :
-  exists d, forall polls req req' script,
-    fst (run_rd aread req a_fuel (p_gzi true) (mkASource d polls)) = RVal GPanic
-    /\ fst (run_rd src_read req' src_fuel (p_gzi false) (mkSource d script)) = RErr UnexpectedEof.
-Proof. exact async_gzi_reader_equals_sync_refuted. Qed.
-Print Assumptions c16_async_gzi_reader_equals_sync_refuted.
+(* the former counter-example (finding async-gzi-reader-count-capacity-overflow-panic, repaired
+   by f641783): 8 bytes holding the count 2^59 are UnexpectedEof on both sides *)
+Theorem c16_async_gzi_reader_huge_count_now_equal :
+  forall polls req req' script,
+    fst (run_rd aread req a_fuel (p_gzi true) (mkASource [0; 0; 0; 0; 0; 0; 0; 8]%N polls)) = RErr UnexpectedEof
+    /\ fst (run_rd src_read req' src_fuel (p_gzi false) (mkSource [0; 0; 0; 0; 0; 0; 0; 8]%N script))
+       = RErr UnexpectedEof.
+Proof. exact async_gzi_reader_huge_count_now_equal. Qed.
+Print Assumptions c16_async_gzi_reader_huge_count_now_equal.
 
-(* BAI.  The sync reader program returns an index exactly when C17's read_bai accepts, the same *)
+(* BAI.  The reader program returns an index exactly when C17's read_bai accepts, the same *)
 Theorem c16_bai_program_is_read_bai :
   forall d,
     NV.Index.Layout.read_bai d
@@ -882,21 +879,11 @@ Theorem c16_bai_program_is_read_bai :
 Proof. exact bai_link. Qed.
 Print Assumptions c16_bai_program_is_read_bai.
 
-(* on every file shorter than 2^35 bytes, under every poll script and every delivery script, the
-   two BAI readers return the same index or the same error kind -- except that the sync reader
-   may say InvalidData where the async reader says UnexpectedEof, and nothing else *)
-Theorem c16_async_bai_reader_equals_sync_partial :
-  forall polls req req' script d,
-    (N.of_nat (length d) < bai_bound)%N ->
-    rr_rel (fst (run_rd src_read req' src_fuel (p_bai true) (mkSource d script)))
-           (fst (run_rd aread req a_fuel (p_bai false) (mkASource d polls))).
-Proof. exact async_bai_reader_equals_sync_partial. Qed.
-Print Assumptions c16_async_bai_reader_equals_sync_partial.
-
-(* outside that class the results are equal *)
+(* for EVERY byte string, under every poll script and every delivery script, the two BAI readers
+   return the same index or the same error kind (repaired by d76b74b: the sync reader keeps the
+   kind of an I/O error inside a bin, the async reader reads n_chunk as an i32) *)
 Theorem c16_async_bai_reader_equals_sync :
   forall polls req req' script d,
-    (N.of_nat (length d) < bai_bound)%N -> ~ bai_kind_class d ->
     fst (run_rd aread req a_fuel (p_bai false) (mkASource d polls))
     = fst (run_rd src_read req' src_fuel (p_bai true) (mkSource d script)).
 Proof. exact async_bai_reader_equals_sync. Qed.
@@ -905,20 +892,22 @@ Print Assumptions c16_async_bai_reader_equals_sync.
 (* the async reader returns an index exactly when C17's read_bai accepts the file, the same one *)
 Theorem c16_async_bai_reader_is_read_bai :
   forall polls req d i,
-    (N.of_nat (length d) < bai_bound)%N ->
     (fst (run_rd aread req a_fuel (p_bai false) (mkASource d polls)) = RVal i
      <-> NV.Index.Layout.read_bai d = Some i).
 Proof. exact async_bai_reader_link. Qed.
 Print Assumptions c16_async_bai_reader_is_read_bai.
 
-(* the full statement is false: a file cut inside the chunk count of a bin
-   (finding async-bai-reader-error-kind-differs) *)
-Theorem c16_async_bai_reader_equals_sync_refuted :
-  exists d, forall polls req req' script,
-    fst (run_rd aread req a_fuel (p_bai false) (mkASource d polls)) = RErr UnexpectedEof
-    /\ fst (run_rd src_read req' src_fuel (p_bai true) (mkSource d script)) = RErr InvalidData.
-Proof. exact async_bai_reader_equals_sync_refuted. Qed.
-Print Assumptions c16_async_bai_reader_equals_sync_refuted.
+(* the former counter-examples (findings async-bai-reader-error-kind-differs and
+   async-bai-reader-negative-chunk-count-error-kind-differs): a file cut inside the chunk count of
+   a bin is UnexpectedEof, a chunk count of 0x80000000 is InvalidData, on both sides *)
+Theorem c16_async_bai_reader_former_differences_now_equal :
+  forall polls req req' script,
+    fst (run_rd aread req a_fuel (p_bai false) (mkASource bai_cut_in_bin polls)) = RErr UnexpectedEof
+    /\ fst (run_rd src_read req' src_fuel (p_bai true) (mkSource bai_cut_in_bin script)) = RErr UnexpectedEof
+    /\ fst (run_rd aread req a_fuel (p_bai false) (mkASource bai_negative_n_chunk polls)) = RErr InvalidData
+    /\ fst (run_rd src_read req' src_fuel (p_bai true) (mkSource bai_negative_n_chunk script)) = RErr InvalidData.
+Proof. exact async_bai_reader_former_differences_now_equal. Qed.
+Print Assumptions c16_async_bai_reader_former_differences_now_equal.
 
 (* non-vacuity: one reference with bin 5 (one chunk), the metadata pseudo-bin, two intervals and
    n_no_coor = 9; 1-byte transfers with a Pending before each for the first polls, then 3-byte ones *)
@@ -939,15 +928,9 @@ Example c16_index_reader_example :
   /\ sync_bai_run data = RVal idx
   /\ NV.Index.Layout.read_bai data = Some idx
   /\ NV.Index.Layout.w_bai idx = data
-  /\ (N.of_nat (length data) < bai_bound)%N /\ ~ bai_kind_class data
   /\ async_gzi_run [0; 2; 3]%nat 8%nat (le8 1 ++ le8 4668 ++ le8 21294)%N = RVal (GIndex [(4668, 21294)%N])
-  /\ sync_gzi_case (le8 1 ++ le8 4668 ++ le8 21294)%N = IxVal [(4668, 21294)%N]
-  /\ ~ gzi_count_overflows (le8 1 ++ le8 4668 ++ le8 21294)%N.
-Proof.
-  vm_compute. repeat split; try reflexivity.
-  - intros [H _]. discriminate H.
-  - intros [_ H]. apply H. reflexivity.
-Qed.
+  /\ sync_gzi_case (le8 1 ++ le8 4668 ++ le8 21294)%N = IxVal [(4668, 21294)%N].
+Proof. vm_compute. repeat split; reflexivity. Qed.
 End IX.
 
 (* ============================================================================================
